@@ -19,6 +19,15 @@
 //! empty child list against a bounded parent is *not* contained), or the
 //! delegator owns the Space, and (c) — the statement of C19 — the delegator
 //! *currently* holds that action over that resource itself.
+//!
+//! A request that NAMES its Delegation chain (`Entry::Named`) runs on the
+//! chain's last Delegation alone, and only while every named link is in force
+//! and the links descend from one another down to the caller; ownership and
+//! policy statements apply as ever.
+//!
+//! A never-labelled element carries the Space's `default_classification`
+//! (`GovModel::space_default`) wherever a label is looked at: scope
+//! classifications, ceilings, statement resources.
 
 use serde::Serialize;
 use std::collections::BTreeSet;
@@ -182,6 +191,36 @@ pub struct GovModel {
     pub delegs: Vec<MDeleg>,
     /// the statements of the policy version bound to the Space, if any
     pub policy: Option<Vec<MStmt>>,
+    /// the Space's `default_classification` ("" = the bootstrap value,
+    /// `internal`): the label every never-labelled element effectively carries
+    pub space_default: String,
+}
+
+/// How a request names the Delegations it runs on (`AuthContext::
+/// delegation_chain`): not at all ("everything conferred on me"), or an
+/// explicit chain, delegator-first, of indexes into `GovModel::delegs`.
+/// Naming a chain narrows: the request runs on the chain's last Delegation
+/// alone (no Grant, no other Delegation of the caller), and only while every
+/// named link is in force, each names the one before it as its parent (which
+/// must permit re-delegation) and the last names the caller as its delegate;
+/// otherwise the request is refused as a whole.
+#[derive(Clone, Debug, Default, PartialEq, Eq, PartialOrd, Ord, Serialize)]
+pub enum Entry {
+    #[default]
+    Ambient,
+    Named(Vec<usize>),
+}
+
+impl Entry {
+    pub fn chain(&self) -> &[usize] {
+        match self {
+            Entry::Ambient => &[],
+            Entry::Named(c) => c,
+        }
+    }
+    pub fn is_named(&self) -> bool {
+        !self.chain().is_empty()
+    }
 }
 
 impl Default for GovModel {
@@ -194,6 +233,7 @@ impl Default for GovModel {
             grants: Vec::new(),
             delegs: Vec::new(),
             policy: None,
+            space_default: String::new(),
         }
     }
 }
@@ -272,6 +312,11 @@ pub struct Flags {
     pub owner_inactive: bool,
     /// a Principal removed from the Space's owners
     pub ex_owner: bool,
+    /// a link of an explicitly NAMED Delegation chain that is not in force
+    pub named_status: bool,
+    /// a named chain whose links do not descend from one another / whose
+    /// parent forbids re-delegation / that does not end at the caller
+    pub named_linkage: bool,
 }
 
 /// `own` applies to the requesting Principal's own records, `up` to everything
@@ -291,6 +336,7 @@ impl Relax {
 pub const RULES: &[&str] = &[
     "inactive", "revoked", "expiry", "strength", "deny", "scope", "ceiling", "delegable",
     "attenuation", "membership", "action", "holding", "owner-inactive", "ex-owner",
+    "named-link-inactive", "named-chain-unlinked",
 ];
 
 fn flag(name: &str) -> Flags {
@@ -310,6 +356,8 @@ fn flag(name: &str) -> Flags {
         "holding" => f.holding = true,
         "owner-inactive" => f.owner_inactive = true,
         "ex-owner" => f.ex_owner = true,
+        "named-link-inactive" => f.named_status = true,
+        "named-chain-unlinked" => f.named_linkage = true,
         _ => unreachable!(),
     }
     f
@@ -323,9 +371,14 @@ impl GovModel {
         // delegations keep their order: `Parent::Deleg` indexes into it
         serde_json::json!({
             "active": self.active, "owners": self.owners, "group": self.group, "grants": g,
-            "delegs": self.delegs, "policy": self.policy,
+            "delegs": self.delegs, "policy": self.policy, "space_default": self.default_class(),
         })
         .to_string()
+    }
+
+    /// The label a never-labelled element effectively carries.
+    pub fn default_class(&self) -> &str {
+        if self.space_default.is_empty() { "internal" } else { &self.space_default }
     }
 
     /// Whether any record of the configuration is (or was) about this
@@ -384,6 +437,30 @@ impl GovModel {
             }
         }
         out
+    }
+
+    /// The authorities of a request that names its Delegation chain, or
+    /// `Err` when the chain is not one: the request is refused as a whole.
+    fn named_candidates(&self, who: Who, chain: &[usize], x: &Relax) -> Result<Vec<Cand>, ()> {
+        let f = x.at(0);
+        let mut previous: Option<usize> = None;
+        for &i in chain {
+            let d = self.delegs.get(i).ok_or(())?;
+            if !(d.active || f.named_status) {
+                return Err(());
+            }
+            if let Some(p) = previous {
+                if !f.named_linkage && (d.parent != Parent::Deleg(p) || !self.delegs[p].may_redelegate) {
+                    return Err(());
+                }
+            }
+            previous = Some(i);
+        }
+        let last = previous.ok_or(())?;
+        if self.delegs[last].to != who && !f.named_linkage {
+            return Err(());
+        }
+        Ok(self.resolve_deleg(last, 0, x).into_iter().collect())
     }
 
     fn resolve_deleg(&self, index: usize, depth: usize, x: &Relax) -> Option<Cand> {
@@ -449,11 +526,20 @@ impl GovModel {
     }
 
     pub fn decide(&self, who: Who, strength: u8, perm: &str, r: &Res) -> Dec {
-        self.decide_at(who, strength, perm, r, 0, &Relax::default())
+        self.decide_at(who, strength, perm, r, 0, &Relax::default(), &Entry::Ambient)
     }
 
     pub fn decide_relaxed(&self, who: Who, strength: u8, perm: &str, r: &Res, x: &Relax) -> Dec {
-        self.decide_at(who, strength, perm, r, 0, x)
+        self.decide_at(who, strength, perm, r, 0, x, &Entry::Ambient)
+    }
+
+    /// The decision for a request entering through `entry`.
+    pub fn decide_via(&self, who: Who, strength: u8, perm: &str, r: &Res, entry: &Entry) -> Dec {
+        self.decide_at(who, strength, perm, r, 0, &Relax::default(), entry)
+    }
+
+    pub fn decide_relaxed_via(&self, who: Who, strength: u8, perm: &str, r: &Res, x: &Relax, entry: &Entry) -> Dec {
+        self.decide_at(who, strength, perm, r, 0, x, entry)
     }
 
     /// Every single-rule relaxation, delegator-side rules first.
@@ -476,28 +562,38 @@ impl GovModel {
         for (side, own) in [("own", true), ("delegator", false)] {
             for rule in RULES.iter().filter(|r| **r != "holding") {
                 let x = if own { Relax { own: flag(rule), up: Flags::default() } } else { Relax { own: Flags::default(), up: flag(rule) } };
-                if self.decide_at(who, strength, perm, r, 0, &x).allowed() {
+                if self.decide_at(who, strength, perm, r, 0, &x, &Entry::Ambient).allowed() {
                     return format!("{side}-{rule}");
                 }
             }
         }
         let x = Relax { own: flag("holding"), up: flag("holding") };
-        if self.decide_at(who, strength, perm, r, 0, &x).allowed() {
+        if self.decide_at(who, strength, perm, r, 0, &x, &Entry::Ambient).allowed() {
             return "delegator-does-not-hold".to_string();
         }
         "unexplained".to_string()
     }
 
-    fn decide_at(&self, who: Who, strength: u8, perm: &str, r: &Res, depth: usize, x: &Relax) -> Dec {
+    fn decide_at(&self, who: Who, strength: u8, perm: &str, r: &Res, depth: usize, x: &Relax, entry: &Entry) -> Dec {
         let f = x.at(depth);
         if !self.live(who, f) || depth >= MAX_DEPTH {
             return Dec::Deny;
         }
+        // what the caller holds: everything conferred on it, or the one
+        // Delegation at the end of the chain the request names
+        let held = if entry.is_named() && depth == 0 {
+            match self.named_candidates(who, entry.chain(), x) {
+                Ok(c) => c,
+                Err(()) => return Dec::Deny,
+            }
+        } else {
+            self.candidates(who, depth, x)
+        };
         // an unlabelled element carries the Space default, never `public`
         let r = if r.is_space() || !r.class.is_empty() {
             r.clone()
         } else {
-            Res { class: "internal".into(), ..r.clone() }
+            Res { class: self.default_class().to_string(), ..r.clone() }
         };
         let stmts: &[MStmt] = self.policy.as_deref().unwrap_or(&[]);
         let mut gate_unspecified = false;
@@ -518,7 +614,7 @@ impl GovModel {
             masks.insert(false);
             open = true;
         }
-        for c in self.candidates(who, depth, x) {
+        for c in held {
             let applies = (f.action || c.actions.iter().any(|a| a == perm))
                 && (r.is_space() || ((f.scope || c.scope.matches(&r)) && (f.ceiling || c.cons.reaches(&r))))
                 && c.cond.holds_relaxed(strength, f);
@@ -528,7 +624,7 @@ impl GovModel {
             // C19: "a delegation never confers more than its delegator currently holds"
             if let Some(delegator) = c.via {
                 if !f.holding {
-                    match self.decide_at(delegator, 2, perm, &r, depth + 1, x) {
+                    match self.decide_at(delegator, 2, perm, &r, depth + 1, x, &Entry::Ambient) {
                         Dec::Allow { .. } => {}
                         Dec::GateUnspecified => {
                             // allowed or not depending on what the documentation leaves open
